@@ -23,6 +23,7 @@
 #include "globals.h"
 #include "HeaderMangling.h"
 #include "http/Stream.h"
+#include "HttpHdrCc.h"
 #include "HttpHeaderTools.h"
 #include "HttpReply.h"
 #include "HttpRequest.h"
@@ -455,6 +456,14 @@ clientReplyContext::handleIMSReply(const StoreIOBuffer result)
 
         http->updateLoggingTags(LOG_TCP_REFRESH_UNMODIFIED);
         http->request->flags.staleIfHit = false; // old_entry is no longer stale
+
+        // RFC 9111 sections 3.2 and 5.2.2: the 304 has just updated the stored
+        // response. If the origin now forbids storing (no-store) or sharing
+        // (private) it, then serve it to this client but do not reuse it again.
+        if (const auto cc = new_rep.cache_control) {
+            if (cc->hasNoStore() || cc->hasPrivate())
+                old_entry->releaseRequest();
+        }
 
         // if client sent IMS
         if (http->request->flags.ims && !old_entry->modifiedSince(http->request->ims, http->request->imslen)) {
